@@ -187,3 +187,27 @@ def c16_runs(tier):
         for t in threads:
             out.append((dict(cfg, env={'OMP_NUM_THREADS': str(t), 'OMP_NESTED': 'true', 'OMP_MAX_ACTIVE_LEVELS': '3'}), None, c16_suite, [], 'same-seed'))
     return out
+
+
+# ------------------------------------------------------------------------------------------------ C11
+def c11(tier, seed):
+    """access-trace correspondence of the word-level kernels (vlib/tracecheck.py)"""
+    from . import tracecheck as T
+    viol = []
+    cases = T.gen_cases(seed, quick=(tier == 'quick'))
+    r = T.run(cases)
+    for o in r['oob'][:5]:
+        viol.append(dict(kind='access-outside-operand', what=o['what'], case=o['case'], signature='c11-trace-' + o['case'].split()[0],
+                         op=o['case'].split()[0],
+                         replay='harness/trace_drv.c built -O0 -msse2 from /repo; one line "%s" in a case file; valgrind --tool=lackey --trace-mem=yes' % o['case']))
+    byop = {}
+    for m in r['mismatches']:
+        byop.setdefault(m['case'].split()[0], []).append(m)
+    for op, ms in sorted(byop.items()):
+        m = ms[0]
+        viol.append(dict(kind='trace-differs-from-model', tie_only=True, op=op, case=m['case'], count=len(ms), only_code=m['only_code'], only_model=m['only_model'],
+                         what='the word accesses of the real kernel differ from the trace model M4ri/Safety.lean (theorems of M4riProofs/Safety.lean no longer describe the code)',
+                         signature='c11-tracemodel-' + op))
+    cov = dict(trace_cases=r['n'], trace_accesses=r['accesses'], trace_mismatches=len(r['mismatches']), trace_out_of_bounds=len(r['oob']),
+               trace_ops=sorted(set(c.split()[0] for c in cases)))
+    return dict(coverage=cov, violations=viol)
